@@ -23,6 +23,9 @@ CHECKS = {
  "C04": (MC, "explicit-state breadth-first search with state matching over FLOW_MOD / traffic / clock / sweep histories on the real switch, table read back over the wire after every step and compared with a reference state machine",
          "Every table state reachable within <=3 (quick) / <=4 (thorough) operations from the empty table, and one operation less from two populated tables, over 60+ operations (all five commands, CHECK_OVERLAP, SEND_FLOW_REM with idle/hard timeouts, EMERG, out_port filters, two frames, virtual clock, sweep) is expanded once; installed entries, counters, durations, emitted flow-removed/error/packet-in messages and table order are compared with mc/refs/reftable.py on every transition.",
          "Trusts the reference state machine (written from OpenFlow 1.0 sections 3.4/4.6) and the wire decoder; clock steps avoid exact timeout boundaries; equal-priority overlapping lookups may return either entry.", "DESIGN.md 4 C04"),
+ "C07": (MC, "stateless exploration of thread interleavings of the real recoco scheduler under a controlled scheduler (baton-passing real threads, line/bytecode scheduling points, deviation/preemption bounding); cooperative Lock by exhaustive program x waiter-choice enumeration",
+         "Every schedule within 2 deviations (3 thorough) from the default schedule at line granularity in the hand-off functions, and within 1 (2 thorough) deviation with every line of recoco.py as a scheduling point, for four closed scenarios (callLater from 2 threads, a task woken from 2 threads and a sibling, synchronized() incl. nesting, idle/wake-up handshake) under both select-hub modes; lost wake-ups are detected because polling timeouts are never fired while work is pending. Lock: all 2-4 task programs over acquire/try/release/yield scripts with every waiter-pop choice.",
+         "Modelled primitives (Lock, Event, Queue, select, pinger) in mc/thr.py; GIL atomicity of container operations; no partial-order reduction.", "DESIGN.md 4 C07"),
 }
 
 PENDING_REASON = "check under construction in this round (design in DESIGN.md section 4); not claimed until its harness is committed and silent on the unchanged tree"
